@@ -35,6 +35,7 @@ DEFINITE = [
     ("assert_by_compute_only failed", "compute"),
     ("failed to simplify down to true", "compute"),
     ("evaluates to false", "compute"),
+    ("expression simplifies to false", "compute"),
     ("possible truncation", "truncation"),
     ("recommendation not met", None),
     ("unreachable", "unreachable"),
@@ -54,12 +55,13 @@ def _limits():
         pass
 
 
-def run_verus(gen, workdir, rlimit=None, extra_args=(), timeout=3600, threads=None, tag=None):
+def run_verus(gen, workdir, rlimit=None, extra_args=(), timeout=3600, threads=None, tag=None, _text=None, _carry=(), _round=0):
     os.makedirs(workdir, exist_ok=True)
     base = gen.unit if tag is None else "%s_%s" % (gen.unit, tag)
     path = os.path.join(workdir, base + ".rs")
+    src_text = gen.text() if _text is None else _text
     with open(path, "w") as f:
-        f.write(gen.text())
+        f.write(src_text)
     mpath = os.path.join(workdir, base + ".map.json")
     with open(mpath, "w") as f:
         json.dump({"unit": gen.unit, "items": gen.items, "rewrites": gen.rewrites}, f, indent=1)
@@ -165,4 +167,25 @@ def run_verus(gen, workdir, rlimit=None, extra_args=(), timeout=3600, threads=No
             res["undecided"].append(entry)
     if rc != 0 and not res["failures"] and not res["undecided"]:
         res["undecided"].append({"reason": "nonzero-exit", "detail": err[-2000:]})
+    # A `by(compute_only)` assertion that the interpreter evaluates to FALSE aborts the whole run before any
+    # other obligation is attempted. Record that (definite) failure, drop the `by(compute..)` of exactly that
+    # assertion (it is then an ordinary assertion, which still fails for its function) and run again, so the
+    # remaining obligations of the file are decided too.
+    aborting = [f for f in res["failures"] if f["kind"] == "compute" and res["verified"] == 0 and f.get("gen_line")]
+    if aborting and _round < 24:
+        lines = src_text.split("\n")
+        changed = False
+        for f in aborting:
+            i = f["gen_line"] - 1
+            new = re.sub(r"\s*by\s*\(\s*compute(_only)?\s*\)", " /* by(compute): evaluated to false */", lines[i], count=1)
+            if new != lines[i]:
+                lines[i] = new
+                changed = True
+        if changed:
+            return run_verus(gen, workdir, rlimit=rlimit, extra_args=extra_args, timeout=timeout, threads=threads, tag=tag,
+                             _text="\n".join(lines), _carry=list(_carry) + aborting, _round=_round + 1)
+    if _carry:
+        items = {f["item"] for f in _carry}
+        res["failures"] = list(_carry) + [f for f in res["failures"] if f["item"] not in items]
+        res["compute_abort_rounds"] = _round
     return res
